@@ -349,6 +349,17 @@ func runC10(ctx *runCtx) {
 		timeoutDifferential(rep, newRng(ctx.seed, "c10timeout"), progs, &lines, &expect, &what)
 		askAndCompare(ctx, lines, expect, what, "timeout-goroutine-model-vs-impl")
 	}
+	for _, client := range []bool{true, false} {
+		for _, flate := range []bool{false, true} {
+			client, flate := client, flate
+			sh, w := guarded(30*time.Second, func() (string, string) { return c10WaitingWriter(client, flate) })
+			rep.eval(fmt.Sprintf("waiting-writer/%v/%v", client, flate))
+			rep.count("waiting-writer")
+			if sh != "" {
+				rep.violate(Violation{Kind: "property", Shape: sh, What: w, Replay: map[string]interface{}{"scenario": "waiting-writer", "client": client, "flate": flate}})
+			}
+		}
+	}
 	cirTraceValidation(ctx, cirTraceN(ctx))
 	rep.sample(cases[0])
 	rep.sample(cases[len(cases)-1])
@@ -506,6 +517,61 @@ func queuedCallScenario(client bool) (string, string) {
 	a.writeGate = nil
 	if werr := c.Write(wctx, websocket.MessageText, []byte("x")); werr == nil {
 		return "connection-open-after-expiry", desc + ": the connection still accepts writes after a blocked call's context was cancelled"
+	}
+	return "", ""
+}
+
+// c10WaitingWriter: a message is being streamed under a live context; another call queues behind it on the message lock
+// and gives up when its own context is cancelled. That context governed only the queued call: the open message goes on
+// (several more frames and its Close) under its own context, and the connection stays usable.
+func c10WaitingWriter(client, flate bool) (string, string) {
+	a, b := newPipe()
+	c := websocket.VerifNewConn(a, client, websocket.VerifCopts{Enabled: flate}, 16)
+	peer := newRawPeer(b, !client)
+	defer b.Close()
+	defer c.CloseNow()
+	go func() {
+		for {
+			if _, err := peer.readFrame(10 * time.Second); err != nil {
+				return
+			}
+		}
+	}()
+	desc := fmt.Sprintf("waiting-writer client=%v flate=%v", client, flate)
+	ctxA, cancelA := context.WithTimeout(context.Background(), 8*time.Second)
+	defer cancelA()
+	w, err := c.Writer(ctxA, websocket.MessageText)
+	if err == nil {
+		_, err = w.Write(historyMsg(1, 300))
+	}
+	if err != nil {
+		return "setup-failed", desc + ": " + err.Error()
+	}
+	ctxB, cancelB := context.WithCancel(context.Background())
+	done := make(chan error, 1)
+	go func() { done <- c.Write(ctxB, websocket.MessageBinary, historyMsg(2, 200)) }()
+	time.Sleep(40 * time.Millisecond)
+	cancelB()
+	select {
+	case err := <-done:
+		if err == nil {
+			return "queued-call-overtook-open-message", desc + ": a Write queued behind an open streamed message returned nil"
+		}
+	case <-time.After(2 * time.Second):
+		return "queued-call-not-released", desc + ": a Write waiting for the message lock did not return within 2 s of the cancellation of its context"
+	}
+	for i := 0; i < 6; i++ {
+		if _, err := w.Write(historyMsg(3+i, 300)); err != nil {
+			return "foreign-context-governs-open-message", fmt.Sprintf("%s: chunk %d of the open message failed with %v after another call's context was cancelled", desc, i, err)
+		}
+	}
+	if err := w.Close(); err != nil {
+		return "foreign-context-governs-open-message", fmt.Sprintf("%s: Close of the open message failed with %v after another call's context was cancelled", desc, err)
+	}
+	ctxC, cancelC := context.WithTimeout(context.Background(), 3*time.Second)
+	defer cancelC()
+	if err := c.Write(ctxC, websocket.MessageText, []byte("after")); err != nil {
+		return "foreign-context-governs-later-call", fmt.Sprintf("%s: a later Write under a live context failed with %v", desc, err)
 	}
 	return "", ""
 }
